@@ -49,7 +49,7 @@ def run_worker(job):
     env = dict(os.environ)
     env["PYTHONHASHSEED"] = str(hashseed)
     env["ADCGEN_LOG_LEVEL"] = "ERROR"
-    pp = [driver.ROOT]
+    pp = [driver.ROOT, driver.REPO]     # the package under test comes before the .pth entry of the venv
     if pkgdir:
         pp.insert(0, pkgdir)
     env["PYTHONPATH"] = ":".join(pp)
